@@ -31,7 +31,7 @@ let show spec o = match o with
     let m = List.map (fun x -> match x with Some l -> hex_of_bytes l | None -> "X") ms in
     let m = if int_of_nat rest > 0 then m @ ["REST" ^ string_of_int (int_of_nat rest)] else m in
     Printf.sprintf "M:%d|%s" (int_of_nat z) (if m = [] then "-" else String.concat "," m)
-let variant i = match i with 0 -> v_cobs | 1 -> v_cobs_r | 2 -> v_zpe | _ -> v_zpe_r
+let variant i = match i with 0 -> FCobs v_cobs | 1 -> FCobs v_cobs_r | 2 -> FCobs v_zpe | 3 -> FCobs v_zpe_r | _ -> FText
 let () =
   let ic = open_in Sys.argv.(1) in
   List.iter (fun line ->
@@ -40,5 +40,5 @@ let () =
       let ops = parse_ops ops in
       let v = variant (int_of_string v) in
       Printf.printf "M %s %s\n" id (String.concat " " (List.map (show false) (crun v cinit ops)));
-      Printf.printf "S %s %s\n" id (String.concat " " (List.map (show true) (csrun sinit ops)))
+      Printf.printf "S %s %s\n" id (String.concat " " (List.map (show true) (csrun v sinit ops)))
     | _ -> ()) (read_lines ic)
